@@ -273,6 +273,8 @@ def run_enc_vector(i, v):
     u = v['u']
     if v['sub'] == 'srpol':
         cls = 'srpol-%s-l%d-s%s' % (u['enc'], len(u['lists']), '.'.join(str(len(sl['segs'])) for sl in u['lists']))
+    elif v['sub'] == 'evpn5':
+        cls = 'evpn5-%s-p%d.%d-gw%d' % ('reach' if u['reach'] else 'unreach', len(u['pa']), u['pl'], len(u['gw']))
     elif v['sub'] == 'pmsievpn':
         cls = 'pmsievpn-t%d-encap%d-%s' % (u['p']['ttype'], u['encap'], u['form'])
     elif v['sub'] == 'pmsi':
